@@ -19,7 +19,9 @@ from ..strategies import molecules
 ID = "C13"
 LEVEL = "exploration"
 RULE = ("generated systems of 1-4 well-posed molecules with consistent mixture specifications (absolute / percent mixed) and system "
-        "masses of 3-40 typical molecule masses, iterated with seeded generators; plus non-generable variants (all-percent, a "
+        "masses of 3-40 typical molecule masses, iterated with seeded generators (again after a complete and an abandoned iteration; two "
+        "iterations alive at once; one-component systems again with the system mass 2e-6 / 3e-9 (relative) above and below a partial sum); "
+        "plus non-generable variants (all-percent, a "
         "component without distribution or with a negative weight); non-trivial = ensemble with >=3 members from >=2 different "
         "components; distinct = (system string, seed)")
 ASSUMPTIONS = ["membership of a molecule in a component is decided by the residue tags + verification of gbsv/genoracle.py",
@@ -282,6 +284,79 @@ def check(acc, s: Sys, S, seed, broken, use_global):
                               f"(before the last one {tot2 - last2}); the first iteration gave {len(members)} molecules / {sum(members)}", case, sig, size=len(text))
         elif bad2 != "dropped":
             acc.violation("second_iteration", f"System({text!r}): iterating the same object again {bad2}", case, sig, size=len(text))
+    # two iterations of the same object alive at the same time, advanced alternately, each with its own generator: each must be
+    # exactly the ensemble a solo iteration with that generator gives (nothing shared between iterations)
+    if not problems and members and not use_global and seed % 3 == 0:
+        def _drain(its):
+            outs = [[] for _ in its]
+            live = list(range(len(its)))
+            for step in range(200000):
+                if not live:
+                    break
+                for q in list(live):
+                    st_, mg = probe.guarded(lambda: next(its[q]), seconds=120)
+                    if st_ == "raise" and isinstance(mg, StopIteration):
+                        live.remove(q)
+                    elif st_ != "ok":
+                        return None if (st_ == "timeout" or "updating stopped" in repr(mg)) else f"raised {mg!r}"
+                    else:
+                        outs[q].append((safe(mg), round(float(mg.weight), 6)))
+            return outs
+        with probe.tag_residues(idx):
+            inter = _drain([iter(probe.system_generator(obj, probe.CountingRNG(seed + 10))), iter(probe.system_generator(obj, probe.CountingRNG(seed + 11)))])
+            solo_a = _drain([iter(probe.system_generator(obj, probe.CountingRNG(seed + 10)))])
+            solo_b = _drain([iter(probe.system_generator(obj, probe.CountingRNG(seed + 11)))])
+        if isinstance(inter, str) or isinstance(solo_a, str) or isinstance(solo_b, str):
+            which = inter if isinstance(inter, str) else (solo_a if isinstance(solo_a, str) else solo_b)
+            acc.violation("interleaved_iterations", f"System({text!r}): two alternately advanced iterations of the same object: {which}", case, sig, size=len(text))
+        elif inter is not None and solo_a is not None and solo_b is not None:
+            acc.count("interleaved_iterations_checked")
+            for name, got, want in (("first", inter[0], solo_a[0]), ("second", inter[1], solo_b[0])):
+                if got != want:
+                    acc.violation("interleaved_iterations", f"System({text!r}) S={Sobj}: the {name} of two alternately advanced iterations of the same object yields "
+                                  f"{len(got)} molecules / total {sum(w for _, w in got):.6g}; alone, with the same generator, it yields {len(want)} / {sum(w for _, w in want):.6g}",
+                                  case, sig, size=len(text))
+                    break
+    # near-tie: a one-component system draws the same molecules for any system mass (the component pick has one option), so the
+    # system mass can be put just above / just below a partial sum of the sequence seen above
+    if not problems and len(members) >= 2 and len(s.mols) == 1 and not use_global and broken is None:
+        j = 1 + seed % (len(members) - 1)
+        sj = sum(members[:j])
+        for delta in (2e-6, -2e-6, 3e-9, -3e-9):
+            S2 = sj * (1.0 + delta)
+            if not (sj - members[j - 1] < S2):
+                continue
+            text2 = s.mols[0].text(False) + f".|{S2!r}|"
+            st2, obj2 = probe.guarded(gbigsmiles.System, text2)
+            if st2 != "ok":
+                acc.count("near_tie_parse_dropped")
+                continue
+            try:
+                S2obj = float(obj2.system_mass)
+            except Exception:  # noqa: BLE001
+                continue
+            if abs(S2obj - S2) > 1e-12 * S2:
+                acc.count("near_tie_mass_not_preserved(C12's business)")
+                continue
+            ws, bad = [], None
+            it3 = iter(probe.system_generator(obj2, probe.CountingRNG(seed)))
+            for step in range(100000):
+                st_, mg = probe.guarded(lambda: next(it3), seconds=120)
+                if st_ == "raise" and isinstance(mg, StopIteration):
+                    break
+                if st_ != "ok":
+                    bad = True
+                    break
+                ws.append(float(mg.weight))
+            if bad:
+                acc.count("near_tie_run_dropped")
+                continue
+            acc.count("near_tie_runs")
+            tot3 = sum(ws)
+            if not ws or not (tot3 >= S2obj and tot3 - ws[-1] < S2obj):
+                acc.violation("stops_at_system_mass", f"System({text2!r}): system mass {S2obj!r} lies {delta:+.0e} (relative) from the partial sum {sj!r} of the first {j} "
+                              f"molecules; the ensemble has {len(ws)} members summing to {tot3!r}, before the last one {tot3 - (ws[-1] if ws else 0)!r} "
+                              f"(must be  s_(k-1) < S <= s_k)", {**case, "near_tie": {"text": text2, "delta": delta}}, {**sig, "near_tie": True}, size=len(text))
     total = sum(members)
     if not problems:
         if not members:
